@@ -1,9 +1,10 @@
 // C07 - the VEGAS grid stays a valid partition and refinement equidistributes importance.
 // (a) direct monitor on vegas_refine_pdf, (b) in-run monitor inside hep::vegas on peaked integrands,
-// (c) scripted extreme canonical numbers + vegas_icdf(1.0), (d) all-zero iterations leave the grid alone.
+// (c) scripted extreme canonical numbers + vegas_icdf(1.0), (d) all-zero iterations leave the grid alone,
+// (e) mpi_vegas on the thread shim: every rank's next grid is the judged refinement of the reduced data, also when a rank saw only zeros.
 #include "vf_main.hpp"
 #include "ref.hpp"
-#include "hep/mc.hpp"
+#include "hep/mc-mpi.hpp"
 
 typedef VF_T T;
 using namespace vf;
@@ -208,7 +209,7 @@ void direct(Rng& rng)
 }
 
 // ---- (b),(c),(d) in-run monitors ---------------------------------------------------------------
-struct CallRec { std::vector<T> x; std::vector<std::size_t> bin; T w; };
+struct CallRec { std::vector<T> x; std::vector<std::size_t> bin; T w; bool nz; };
 
 struct RunState
 {
@@ -219,7 +220,7 @@ struct RunState
     T width = T(0.01);
     T centre = T(0.5);
 };
-RunState* g_run = 0;
+thread_local RunState* g_run = 0;
 
 T run_f(hep::vegas_point<T> const& p)
 {
@@ -228,6 +229,7 @@ T run_f(hep::vegas_point<T> const& p)
     c.x = p.point();
     c.bin = p.bin();
     c.w = p.weight();
+    c.nz = false;
     r.log.push_back(c);
     if (r.iteration == r.zero_iteration) return T();
     T v = T(1);
@@ -239,10 +241,46 @@ T run_f(hep::vegas_point<T> const& p)
         case 0: { T z = (x - r.centre) / r.width; v *= std::exp(-z * z); break; }            // gaussian peak
         case 1: v *= T(1) / (x + r.width); break;                                              // 1/(x+eps)
         case 2: if (i == 0) { T z = (x - r.centre) / r.width; v *= T(1) / (T(1) + z * z); } break;  // spike in one dimension only
+        case 4: v *= (std::fabs(x - r.centre) < r.width) ? T(1) + x : T(0); break;                  // box: exactly zero outside a small support
         default: v *= (x < r.centre ? T(0) : T(1)) + T(1e-3); break;                            // step
         }
     }
+    r.log.back().nz = v != T();
     return v;
+}
+
+void judge_calls(hep::vegas_pdf<T> const& pdf, std::vector<CallRec> const& log, J const& info)
+{
+    std::size_t bins = pdf.bins();
+    for (auto const& c : log)
+    {
+        count("calls_checked");
+        LD wref = 1;
+        for (std::size_t i = 0; i < c.x.size(); ++i)
+        {
+            if (c.bin[i] >= bins) { viol("bin-index-out-of-range", J(info).u("bin", c.bin[i]).u("bins", bins)); goto next; }
+            T l = pdf.bin_left(i, c.bin[i]), rr = pdf.bin_left(i, c.bin[i] + 1);
+            if (!(c.x[i] >= T(0) && c.x[i] <= T(1))) viol("point-outside-unit-interval", J(info).f("x", c.x[i]));
+            // one rounding error of slack on the interpolation l + t*(r-l)
+            T slack = T(2) * std::numeric_limits<T>::epsilon() * std::fmax(std::fabs(l), std::fabs(rr));
+            if (!(c.x[i] >= l - slack && c.x[i] <= rr + slack))
+                viol("point-outside-bin", J(info).u("dim", i).u("bin", c.bin[i]).f("x", c.x[i]).f("left", l).f("right", rr));
+            wref *= (LD)bins * ((LD)rr - (LD)l);
+        }
+        if (!close_rel<T>(c.w, wref, 4 * (c.x.size() + 1)))
+            viol("weight-mismatch", J(info).f("weight", c.w).f("expected", wref).uv("bin", c.bin));
+    next:;
+    }
+}
+
+// the grid proposed for the next iteration is the (judged) refinement of the grid just used with the adjustment data just reported
+void judge_next(hep::vegas_pdf<T> const& used, T alpha, std::vector<T> const& data, hep::vegas_pdf<T> const& next, J const& info, char const* what)
+{
+    bool judged = false;
+    std::uint64_t before = ctx().violations;
+    judge_refinement(used, alpha, data, next, J(info).s("where", what).fv("data_values", data, 24), judged);
+    (void)before;
+    if (judged) count("in_run_next_grids_judged_for_equidistribution");
 }
 
 template <typename Chk> struct RunCallback
@@ -253,27 +291,8 @@ template <typename Chk> struct RunCallback
     {
         auto const& res = chk.results().back();
         hep::vegas_pdf<T> const& pdf = res.pdf();
-        std::size_t bins = pdf.bins();
         check_valid(pdf, "results().back().pdf()", info);
-        for (auto const& c : r->log)
-        {
-            count("calls_checked");
-            LD wref = 1;
-            for (std::size_t i = 0; i < c.x.size(); ++i)
-            {
-                if (c.bin[i] >= bins) { viol("bin-index-out-of-range", J(info).u("bin", c.bin[i]).u("bins", bins)); goto next; }
-                T l = pdf.bin_left(i, c.bin[i]), rr = pdf.bin_left(i, c.bin[i] + 1);
-                if (!(c.x[i] >= T(0) && c.x[i] <= T(1))) viol("point-outside-unit-interval", J(info).f("x", c.x[i]));
-                // one rounding error of slack on the interpolation l + t*(r-l)
-                T slack = T(2) * std::numeric_limits<T>::epsilon() * std::fmax(std::fabs(l), std::fabs(rr));
-                if (!(c.x[i] >= l - slack && c.x[i] <= rr + slack))
-                    viol("point-outside-bin", J(info).u("dim", i).u("bin", c.bin[i]).f("x", c.x[i]).f("left", l).f("right", rr));
-                wref *= (LD)bins * ((LD)rr - (LD)l);
-            }
-            if (!close_rel<T>(c.w, wref, 4 * (c.x.size() + 1)))
-                viol("weight-mismatch", J(info).f("weight", c.w).f("expected", wref).uv("bin", c.bin));
-        next:;
-        }
+        judge_calls(pdf, r->log, info);
         hep::vegas_pdf<T> next = chk.pdf();
         check_valid(next, "chkpt.pdf()", info);
         if (r->iteration == r->zero_iteration)
@@ -282,11 +301,114 @@ template <typename Chk> struct RunCallback
             if (res.non_zero_calls() != 0) viol("harness:zero-iteration-not-zero", info);
             if (!same_grid(next, pdf)) viol("zero-iteration-changed-grid", J(info).fv("used", grid_vec(pdf), 20).fv("next", grid_vec(next), 20));
         }
+        else judge_next(pdf, chk.alpha(), res.adjustment_data(), next, info, "serial-run");
         r->log.clear();
         ++r->iteration;
         return true;
     }
 };
+
+// ---- (e) mpi_vegas on the shim: per-rank snapshots, judged after the ranks have joined ---------
+struct IterSnap { std::vector<T> used, next, data; std::size_t nz_reduced; std::size_t own_calls, own_nonzero; std::vector<CallRec> log; };
+
+struct MpiRunCallback
+{
+    RunState* r;
+    std::vector<IterSnap>* out;
+    bool operator()(MPI_Comm, hep::vegas_chkpt_with_rng<std::mt19937, T> const& chk)
+    {
+        auto const& res = chk.results().back();
+        IterSnap s;
+        s.used = grid_vec(res.pdf());
+        s.next = grid_vec(chk.pdf());
+        s.data = res.adjustment_data();
+        s.nz_reduced = res.non_zero_calls();
+        s.own_calls = r->log.size();
+        s.own_nonzero = 0;
+        for (auto const& c : r->log) if (c.nz) ++s.own_nonzero;
+        s.log.swap(r->log);
+        out->push_back(s);
+        ++r->iteration;
+        return true;
+    }
+};
+
+hep::vegas_pdf<T> pdf_of(std::vector<T> const& g, std::size_t dims, std::size_t bins)
+{
+    hep::vegas_pdf<T> p(dims, bins);
+    for (std::size_t d = 0; d < dims; ++d) for (std::size_t b = 0; b <= bins; ++b) p.set_bin_left(d, b, g[d * (bins + 1) + b]);
+    return p;
+}
+
+void in_run_mpi(Rng& rng)
+{
+    static const std::size_t bin_choices[] = {2, 3, 5, 8, 16};
+    std::size_t bins = bin_choices[rng.below(5)];
+    std::size_t dims = rng.range(1, 2);
+    int P = int(rng.range(2, 5));
+    T alpha = rng.below(2) ? T(1.5) : T(3 * rng.u01l());
+    int shape = rng.below(3) ? 4 : int(rng.below(4));
+    T width = shape == 4 ? T(0.03L + 0.25L * rng.u01l()) : std::ldexp(T(1), -int(rng.range(2, 8)));
+    T centre = T(rng.u01l());
+    std::size_t iters = rng.range(3, 7);
+    std::vector<std::size_t> calls;
+    // short iterations: fewer calls than ranks (the last ranks get none), or so few that some rank sees only zeros
+    for (std::size_t i = 0; i < iters; ++i) calls.push_back(rng.below(2) ? rng.range(1, 3 * P) : rng.range(20, 400));
+    unsigned eseed = (unsigned)rng.next();
+    std::uint64_t wseed = rng.next();
+    J info;
+    info.s("T", tname<T>::get()).u("bins", bins).u("dims", dims).f("alpha", alpha).i("shape", shape).f("width", width).f("centre", centre)
+        .uv("calls", calls).i("ranks", P).s("kind", "mpi_vegas");
+    std::vector<std::vector<IterSnap>> out(P);
+    VfWorld world;
+    vf_mpi_run(world, P, wseed, [&](int rank, MPI_Comm comm) {
+        RunState r;
+        r.shape = shape; r.width = width; r.centre = centre;
+        g_run = &r;
+        std::mt19937 eng(eseed);
+        hep::vegas_chkpt_with_rng<std::mt19937, T> chk(eng, bins, alpha);
+        MpiRunCallback cb = {&r, &out[rank]};
+        hep::mpi_vegas(comm, hep::make_integrand<T>(run_f, dims), calls, chk, cb);
+        g_run = 0;
+    });
+    ++ctx().evaluations;
+    count("mpi_vegas_runs");
+    if (world.aborted) { viol("mpi-run-aborted", J(info).s("reason", world.abort_reason)); return; }
+    bool starved_rank = false;
+    for (int rank = 0; rank < P; ++rank)
+    {
+        J ri = J(info).i("rank", rank);
+        if (out[rank].size() != iters) { viol("harness:callback-count", J(ri).u("seen", out[rank].size())); return; }
+        for (std::size_t k = 0; k < iters; ++k)
+        {
+            IterSnap const& s = out[rank][k];
+            J ki = J(ri).u("iteration", k);
+            hep::vegas_pdf<T> used = pdf_of(s.used, dims, bins), next = pdf_of(s.next, dims, bins);
+            check_valid(used, "results().back().pdf()", ki);
+            judge_calls(used, s.log, ki);
+            if (s.used != out[0][k].used || s.next != out[0][k].next)
+            {
+                viol("mpi-ranks-hold-different-grids", J(ki).fv("rank0_next", out[0][k].next, 20).fv("this_next", s.next, 20));
+                return;
+            }
+            count("mpi_rank_iterations_checked");
+            if (s.nz_reduced == 0)
+            {
+                count("zero_iterations_mpi");
+                if (!same_grid(next, used)) { viol("zero-iteration-changed-grid", J(ki).fv("used", s.used, 20).fv("next", s.next, 20)); return; }
+            }
+            else
+            {
+                if (s.own_nonzero == 0) { starved_rank = true; count("mpi_rank_iterations_with_only_zeros_while_others_non-zero"); }
+                std::uint64_t before = ctx().violations;
+                judge_next(used, alpha, s.data, next, ki, "mpi-run");
+                if (ctx().violations != before) return;
+            }
+        }
+    }
+    if (starved_rank) nontrivial(mix(hash_str(info.str()), 11));
+    sample(J(info).s("kind", "mpi-in-run"), 3);
+}
 
 void in_run(Rng& rng, bool scripted)
 {
@@ -395,6 +517,7 @@ void vfh_run_case(std::uint64_t idx, Rng& rng)
 {
     std::uint64_t m = idx % 100;
     if (m == 97) in_run(rng, false);
+    else if (m == 95 || m == 94) in_run_mpi(rng);
     else if (m == 98) in_run(rng, true);
     else if (m == 99 || m == 96) icdf_one(rng);
     else direct(rng);
